@@ -33,6 +33,9 @@ import (
 type vSvcScenario struct {
 	Name  string   `json:"name"`
 	Steps []string `json:"steps"` // reserve manifest update D+ D- close T+ T1 wait-deploy wait-teardown
+	// Adopted: the workload is already running in the cluster and the lease is
+	// active on chain when the service starts (provider restart)
+	Adopted bool `json:"adopted,omitempty"`
 }
 
 type vSvcRun struct {
@@ -49,18 +52,22 @@ const vSvcTimeout = 15 * time.Second
 
 func vSvcScenarios() []vSvcScenario {
 	return []vSvcScenario{
-		{"deployed-then-closed", []string{"reserve", "manifest", "wait-deploy", "D+", "close", "wait-teardown", "T+"}},
-		{"closed-during-deploy", []string{"reserve", "manifest", "wait-deploy", "close", "D+", "wait-teardown", "T+"}},
-		{"update-during-deploy-then-closed", []string{"reserve", "manifest", "wait-deploy", "update", "D+", "wait-deploy", "D+", "close", "wait-teardown", "T+"}},
-		{"teardown-fails-once", []string{"reserve", "manifest", "wait-deploy", "D+", "close", "wait-teardown", "T1"}},
-		{"closed-without-manifest", []string{"reserve", "close"}},
-		{"deploy-fails-then-closed", []string{"reserve", "manifest", "wait-deploy", "D-", "settle", "close"}},
-		{"update-fails-then-closed", []string{"reserve", "manifest", "wait-deploy", "D+", "update", "wait-deploy", "D-", "settle", "close"}},
+		{Name: "deployed-then-closed", Steps: []string{"reserve", "manifest", "wait-deploy", "D+", "close", "wait-teardown", "T+"}},
+		{Name: "closed-during-deploy", Steps: []string{"reserve", "manifest", "wait-deploy", "close", "D+", "wait-teardown", "T+"}},
+		{Name: "update-during-deploy-then-closed", Steps: []string{"reserve", "manifest", "wait-deploy", "update", "D+", "wait-deploy", "D+", "close", "wait-teardown", "T+"}},
+		{Name: "teardown-fails-once", Steps: []string{"reserve", "manifest", "wait-deploy", "D+", "close", "wait-teardown", "T1"}},
+		{Name: "closed-without-manifest", Steps: []string{"reserve", "close"}},
+		{Name: "deploy-fails-then-closed", Steps: []string{"reserve", "manifest", "wait-deploy", "D-", "settle", "close"}},
+		{Name: "update-fails-then-closed", Steps: []string{"reserve", "manifest", "wait-deploy", "D+", "update", "wait-deploy", "D-", "settle", "close"}},
 		// a manifest for the lease arrives after the lease was closed: while the
 		// teardown is in flight, and while the last deploy is still in flight
-		{"manifest-during-teardown", []string{"reserve", "manifest", "wait-deploy", "D+", "close", "wait-teardown", "update", "pause", "T+"}},
-		{"manifest-after-close-during-deploy", []string{"reserve", "manifest", "wait-deploy", "close", "update", "pause", "D+", "wait-teardown", "update", "pause", "T+"}},
-		{"manifest-during-failing-teardown", []string{"reserve", "manifest", "wait-deploy", "D+", "close", "wait-teardown", "update", "pause", "T1"}},
+		{Name: "manifest-during-teardown", Steps: []string{"reserve", "manifest", "wait-deploy", "D+", "close", "wait-teardown", "update", "pause", "T+"}},
+		{Name: "manifest-after-close-during-deploy", Steps: []string{"reserve", "manifest", "wait-deploy", "close", "update", "pause", "D+", "wait-teardown", "update", "pause", "T+"}},
+		// provider restart: the service adopts a running workload, then the lease closes
+		{Name: "adopted-then-closed", Steps: []string{"wait-deploy", "D+", "close", "wait-teardown", "T+"}, Adopted: true},
+		{Name: "adopted-closed-during-redeploy", Steps: []string{"wait-deploy", "close", "D+", "wait-teardown", "T+"}, Adopted: true},
+		{Name: "adopted-closed-at-once", Steps: []string{"close", "pause"}, Adopted: true},
+		{Name: "manifest-during-failing-teardown", Steps: []string{"reserve", "manifest", "wait-deploy", "D+", "close", "wait-teardown", "update", "pause", "T1"}},
 	}
 }
 
@@ -87,8 +94,18 @@ func vRunSvcScenario(sc vSvcScenario) (*vSvcRun, []vDMViolation) {
 	ctx, cancel := context.WithCancel(context.Background())
 	defer cancel()
 	cl := &vSvcClient{vScriptedCluster: vScriptedCluster{Client: NullClient(), g: g}}
+	sessOpt := venv.Options{}
+	if sc.Adopted {
+		adoptedGroup := manifest.Group{Name: "g", Services: []manifest.Service{{Name: "web", Image: "img:adopted", Count: 1,
+			Resources: atypes.ResourceUnits{CPU: &atypes.CPU{Units: atypes.NewResourceValue(100)}, Memory: &atypes.Memory{Quantity: atypes.NewResourceValue(1 << 20)}, Storage: &atypes.Storage{Quantity: atypes.NewResourceValue(1 << 20)}},
+			Expose:    []manifest.ServiceExpose{{Port: 80, Proto: manifest.TCP, Global: true, Hosts: []string{"h1.tenant.example.com"}}}}}}
+		cl.deployments = []ctypes.Deployment{vAdopted{lease, adoptedGroup}}
+		sessOpt.ActiveLeases = func(sdk.AccAddress) ([]mtypes.QueryLeaseResponse, error) {
+			return []mtypes.QueryLeaseResponse{{Lease: mtypes.Lease{LeaseID: lease, State: mtypes.LeaseActive, Price: sdk.NewInt64Coin("uakt", 1)}}}, nil
+		}
+	}
 	cfg := Config{InventoryResourcePollPeriod: time.Hour, InventoryResourceDebugFrequency: 1 << 30, InventoryExternalPortQuantity: 100, CPUCommitLevel: 1, MemoryCommitLevel: 1, StorageCommitLevel: 1}
-	svcI, err := NewService(ctx, venv.NewSession(g, &ptypes.Provider{Owner: prov}), bus, cl, cfg)
+	svcI, err := NewService(ctx, venv.NewSessionWith(g, &ptypes.Provider{Owner: prov}, sessOpt), bus, cl, cfg)
 	if err != nil {
 		note("NewService: %v", err)
 		return run, out
@@ -227,8 +244,8 @@ func vRunSvcScenario(sc vSvcScenario) (*vSvcRun, []vDMViolation) {
 				teardowns = append(teardowns, c)
 			}
 		}
-		if len(deploys) > 0 && len(teardowns) == 0 {
-			bad("closed-lease-is-torn-down", fmt.Sprintf("the lease closed after %d deploy call(s) but TeardownLease was never invoked", len(deploys)))
+		if (len(deploys) > 0 || sc.Adopted) && len(teardowns) == 0 {
+			bad("closed-lease-is-torn-down", fmt.Sprintf("the lease closed after %d deploy call(s) (workload adopted at start-up: %v) but TeardownLease was never invoked", len(deploys), sc.Adopted))
 		}
 		if len(deploys) > 0 && len(teardowns) > 0 && teardowns[0].Start < deploys[len(deploys)-1].End {
 			bad("teardown-after-last-deploy", "TeardownLease started before the last deploy had returned")
@@ -272,7 +289,21 @@ func vRunSvcScenario(sc vSvcScenario) (*vSvcRun, []vDMViolation) {
 // vSvcClient: the scripted cluster client plus a scripted Inventory.
 type vSvcClient struct {
 	vScriptedCluster
+	deployments []ctypes.Deployment
 }
+
+func (c *vSvcClient) Deployments(ctx context.Context) ([]ctypes.Deployment, error) {
+	return c.deployments, nil
+}
+
+// vAdopted is a workload found running in the cluster at start-up.
+type vAdopted struct {
+	lease mtypes.LeaseID
+	group manifest.Group
+}
+
+func (a vAdopted) LeaseID() mtypes.LeaseID       { return a.lease }
+func (a vAdopted) ManifestGroup() manifest.Group { return a.group }
 
 func (c *vSvcClient) Inventory(ctx context.Context) ([]ctypes.Node, error) {
 	v, err := c.g.Enter(vKInventory, nil)
